@@ -71,7 +71,7 @@ def eval(expr, env):       # noqa: contract expressions, lazily implied
 
 
 def concrete_env(module):
-    env = {'implies': implies, 'iff': iff, 'old': lambda x: x}
+    env = {'implies': implies, 'iff': iff, 'old': lambda x: x, 'the': lambda x: x}
     for n in getattr(module, 'SPEC_FUNCTIONS', []):
         env[n] = getattr(module, n)
     for m in getattr(module, 'SPEC_IMPORTS', []):
